@@ -397,13 +397,21 @@ Fixpoint parts_gapped (ps : parts) : Prop :=
   end.
 
 (* the last part is a bare max that repeats the upper bound of the part before it (127 | max): accepted by the
-   code although the parts are not disjoint; excluded from the main theorem and shown as a witness instead *)
-Fixpoint touching_max (ty : rty) (base : parts) (ps : list rpart) : Prop :=
+   code although the parts are not disjoint; excluded from the main theorem and shown as a witness instead.
+   [prev] is the upper bound of the part before [ps], if any. *)
+Fixpoint touching_from (ty : rty) (base : parts) (prev : option Z) (ps : list rpart) : Prop :=
   match ps with
-  | [p; (BMax, None)] => snd (part_val ty base p) = kw_value ty base true
-  | _ :: ps' => touching_max ty base ps'
   | [] => False
+  | p :: ps' =>
+      match ps', p with
+      | [], (BMax, None) => prev = Some (kw_value ty base true)
+      | _, _ => touching_from ty base (Some (snd (part_val ty base p))) ps'
+      end
   end.
+Definition touching_max (ty : rty) (base : parts) (ps : list rpart) : Prop := touching_from ty base None ps.
+
+(* no restriction (an empty parts array) accepts every value of the type *)
+Definition denote (ps : parts) (v : Z) : Prop := ps = [] \/ in_parts ps v.
 
 (* a legal restriction as the code decides it on texts of the grammar above *)
 Definition legal (ty : rty) (base : parts) (ps : list rpart) : Prop :=
